@@ -210,7 +210,7 @@ def gen_dataset(rng, target="binary", n=None, kinds=None, with_dev=None):
     return ds
 
 
-def gen_crafted(rng, target="binary"):
+def gen_crafted(rng, target="binary", fine=None):
     """boundary constructor: one feature whose modalities have *exactly chosen* sizes and target rates on the train sample
     and on a dev sample - exact rate ties between adjacent and between non-adjacent modalities, non-monotone rates, dev
     rates that tie where the train rates do not, sizes exactly at / just below min_freq_mod - plus missing values"""
@@ -240,13 +240,13 @@ def gen_crafted(rng, target="binary"):
     sizes = [unit * rng.choice([1, 1, 2, 3, 4]) for _ in levels]
     nan_size = unit * rng.choice([0, 0, 1, 2])
     hint = None
-    if target == "binary" and rng.random() < 0.25:
+    if target == "binary" and (rng.random() < 0.25 if fine is None else fine):
         # (binary targets only: the exact rank computations of the model are quadratic in the number of rows)
         # fine mode: a large sample in which one modality sits a hair (< 5e-4 of the rows) below or exactly at a usual
         # min_freq_mod threshold, so that any rounding of the frequencies before the comparison shows
         # (1 in 4 of these: ten times larger, one row is then less than 5e-5 of the sample - rounding to 4 decimals shows)
         mult = [rng.choice([10, 15, 20, 25]) for _ in levels]
-        unit = max(40, 24000 // sum(mult)) if rng.random() < 0.5 else 40       # about 24000 rows in the larger variant
+        unit = max(40, 24000 // sum(mult)) if (rng.random() < 0.5 or fine) else 40       # about 24000 rows in the larger variant
         sizes = [unit * m for m in mult]
         nan_size = unit * rng.choice([0, 0, 5])
         total = sum(sizes) + nan_size
